@@ -337,13 +337,19 @@ RelRun(t, st, tok, fuel) ==
        ELSE FALSE
 EpsCycle(t) == \E s \in 0 .. Len(t.act) - 1, tok \in Tokens : RelRun(t, <<s>>, tok, 600)
 
+\* some cell of the table had more than one candidate action - whether the choice was made by a
+\* default rule (a reported conflict) or by precedence / associativity (not reported)
+MultiCell(a) == \E s \in 0 .. a.n - 1, tok \in Tokens :
+                  Cardinality(CellReds(a, s, tok)) + (IF HasEdge(a, s, tok) THEN 1 ELSE 0) > 1
+Resolved(t, a) == t.has_conflicts \/ (a.n > 0 /\ MultiCell(a))
+
 RunDevs(t, a, e, run) ==
   IF "overflow" \in DOMAIN run THEN D("C07", "more errors than lexemes", run.nerrors)
   ELSE IF "panic" \in DOMAIN run /\ run.panic # "HARNESS-LOOP" THEN D("ANY", "parser panicked", run.panic)
   ELSE IF "panic" \in DOMAIN run THEN
          \* the parse was stopped after 100 000 reductions
          (IF X.cyclic THEN D("SKIP", "reduce loop on cyclic grammar", 0)
-          ELSE IF t.has_conflicts /\ LoopsBare(t, ToksOf(e), <<t.start>>, 0, 800)
+          ELSE IF Resolved(t, a) /\ LoopsBare(t, ToksOf(e), <<t.start>>, 0, 800)
                \* the specification's LR machine loops on this table as well: the loop is in the
                \* table (a resolved conflict sends the automaton round empty reductions - hidden left
                \* recursion), not in the driver
@@ -462,11 +468,11 @@ OnHang(e) ==
                 THEN D("C17", "KF:cost-nonreturn", "hang") ELSE D("C17", "cost query did not return", 0))
           [] last \in {"table", "parse"} ->
                (IF X.cyclic THEN D("SKIP", "parse hang on cyclic grammar", 0)
-                ELSE IF T.has_conflicts /\ "has_input" \in DOMAIN e /\ e.has_input /\ LoopsBare(T, e.input, <<T.start>>, 0, 800)
+                ELSE IF Resolved(T, A) /\ "has_input" \in DOMAIN e /\ e.has_input /\ LoopsBare(T, e.input, <<T.start>>, 0, 800)
                      \* the harness could name the input of the parse that did not return, and the
                      \* specification's LR machine loops on this table for that input as well
                      THEN D("C07", "KF:lr-loop-conflicts", 2) \cup D("SKIP", "parse hang: the LR automaton of a table with resolved conflicts loops on this input", e.input)
-                ELSE IF T.has_conflicts /\ EpsCycle(T)
+                ELSE IF Resolved(T, A) /\ EpsCycle(T)
                      \* the automaton of this table can cycle through empty reductions by itself (see
                      \* RunDevs); the killed child cannot tell us which input it was working on
                      THEN D("C07", "KF:lr-loop-conflicts", 1) \cup D("SKIP", "parse hang on a table whose automaton has a cycle of empty reductions", 0)
